@@ -57,6 +57,9 @@ pub struct HetHeader {
 impl HetTable {
     const SIGNATURE: u32 = 0x1A544548; // "HET\x1A"
 
+    /// Name hash byte of a slot that was never used (StormLib: HET_ENTRY_FREE)
+    pub const FREE_SLOT: u8 = 0x00;
+
     /// Read and decompress/decrypt a HET table
     pub fn read<R: Read + Seek>(
         reader: &mut R,
@@ -278,8 +281,8 @@ impl HetTable {
                 "HET find_file_with_collision_info: checking index {index}, stored_hash=0x{stored_hash:02X}, looking for=0x{name_hash1:02X}"
             );
 
-            // Check for empty slot (0xFF = HET_TABLE_EMPTY)
-            if stored_hash == 0xFF {
+            // A free slot ends the probe chain
+            if stored_hash == Self::FREE_SLOT {
                 log::debug!(
                     "HET find_file_with_collision_info: hit empty slot at index {index}, search complete"
                 );
